@@ -996,3 +996,23 @@ Section C04History.
     exact (c4_wj w H m Em e He f pl Hp b Hb).
   Qed.
 End C04History.
+
+(* ---------- the decidable reading of "justified", for counterexamples ---------- *)
+Definition used_blocks (w : world) : list cidr :=
+  match w_ctl w with
+  | Some m => flat_map (fun e => (match cc_v4 e with Some p => used p | None => [] end) ++ (match cc_v6 e with Some p => used p | None => [] end)) (all_entries m)
+  | None => []
+  end.
+Definition justb (w : world) (b : cidr) : bool :=
+  existsb (overlapb b) (svc_list (w_svc w)) ||
+  existsb (fun a => existsb (fun pc => match pc with PGood c _ => overlapb b c | PBad => false end) (an_cidrs a)) (w_nodes w).
+
+Lemma justb_complete w b : WInv w -> wf_cidr b -> Jw w b -> justb w b = true.
+Proof.
+  intros I Hb [(s & Hs & Ho)|(a & c & cn & Ha & Hc & Ho)]; unfold justb; apply Bool.orb_true_iff.
+  - left. apply existsb_exists. exists s. split; [exact Hs|]. apply overlapb_spec; [exact Hb| |exact Ho].
+    pose proof (wi_svc w I) as F. rewrite Forall_forall in F. exact (F s Hs).
+  - right. apply existsb_exists. exists a. split; [exact Ha|]. apply existsb_exists. exists (PGood c cn). split; [exact Hc|].
+    apply overlapb_spec; [exact Hb| |exact Ho].
+    pose proof (wi_nodes w I) as F. rewrite Forall_forall in F. pose proof (F a Ha) as Hwa. unfold wf_anode in Hwa. rewrite Forall_forall in Hwa. exact (Hwa _ Hc).
+Qed.
